@@ -597,6 +597,12 @@ def run(facts, R):
                     ok = bool(origs) and all(_whole_frame_origin(facts, b, o) for o in origs)
                     R.check(ok, "one-message-per-frame", b.path, "Binary payload is a whole frame",
                             "a Binary message is built from %s, not from a whole-frame producer" % origs, s.get("span"), str(origs))
+                elif rv.get("agg") == "adt" and rv["adt"] == WSMSG and rv["variant"] not in ("Close", "Ping", "Pong"):
+                    # Text / raw Frame messages carry data too: a REPE frame handed out in pieces (fin = 0 + Continue frames)
+                    # is several sends with an await between them, each a point where the call can be dropped mid-frame
+                    R.bad("one-message-per-frame", b.path, "data message that is not Binary",
+                          "a WebSocket %s message is built: a REPE frame is sent as exactly one Binary message, so that no await lies "
+                          "between two parts of a frame" % rv["variant"], s.get("span"))
         R.floor("one-message-per-frame", n, 4, "Binary constructions")
         sends = []
         for b in facts.bodies.values():
